@@ -3,6 +3,7 @@
 //! predicate on the implementation and disagreements with the model.
 mod cells;
 mod codec;
+mod conv;
 mod driver;
 mod evalrun;
 mod gen;
@@ -167,7 +168,9 @@ fn run_rs_stream(o: &Opts, rep: &mut Report, name: &str, rule: &str, exhaustive:
 }
 
 fn main() {
-    std::panic::set_hook(Box::new(|_| {}));
+    if std::env::var("HARNESS_DEBUG").is_err() {
+        std::panic::set_hook(Box::new(|_| {}));
+    }
     let o = parse_args();
     let mut rep = Report { property: o.prop.clone(), tier: o.tier.clone(), seed: o.seed, profile: if cfg!(debug_assertions) { "dev".into() } else { "release".into() }, ..Default::default() };
     match o.prop.as_str() {
@@ -185,6 +188,7 @@ fn main() {
                 run_rs_stream(&o, &mut rep, "random-expressions", "type-directed random expressions of depth <= 6 over all 47 constructors (7/8 well-typed children), leaves from the boundary pool and from facts fields of every type, through RuleSet::evaluate_value with cacheable / non-cacheable / failing user functions and symbols; inputs map / non-map / None", false, cases, if o.prop == "C02" { "full" } else { "range" });
             }
         }
+        "C17" => conv::run(&mut rep, &o.driver, o.workers, o.tier == "thorough", o.seed),
         "C05" => {
             let mut rng = rng::Rng::new(o.seed);
             let cases = streams::lazy_cases(&mut rng, o.tier == "thorough");
